@@ -23,6 +23,16 @@ static void table(pq_schema_t* s, pq_column_t* cols) {
     for (int i = 0; i < ROWS; i++) { int32_t v = 100 + i; memcpy(cols[0].vals + 4 * i, &v, 4); }
     int nv = 0;
     for (int i = 0; i < ROWS; i++) { cols[1].def[i] = (i % 3) != 1; if (cols[1].def[i]) { int64_t v = -5 + 1000 * (int64_t)i; memcpy(cols[1].vals + 8 * nv, &v, 8); nv++; } }
+#elif SHAPE == 2        /* INT32 REQUIRED whose page body contains bytes that look like <huge footer length> "PAR1":
+                           a cut right behind them presents a prefix ending in a plausible-looking file tail */
+    s->ncols = 2;
+    s->name[0] = "a"; s->type[0] = CARQUET_PHYSICAL_INT32; s->rep[0] = CARQUET_REPETITION_REQUIRED;
+    s->name[1] = "b"; s->type[1] = CARQUET_PHYSICAL_INT64; s->rep[1] = CARQUET_REPETITION_REQUIRED;
+    {
+        static const int32_t av[8] = {1, -8, 0x31524150, -1, 0x31524150, 12, 0x31524150, 5};
+        for (int i = 0; i < ROWS; i++) { int32_t v = av[i % 8]; memcpy(cols[0].vals + 4 * i, &v, 4); }
+        for (int i = 0; i < ROWS; i++) { int64_t v = ((int64_t)0x31524150 << 32) | 0xFFFFFFFCu; memcpy(cols[1].vals + 8 * i, &v, 8); }
+    }
 #else                   /* BYTE_ARRAY REQUIRED + DOUBLE REQUIRED */
     s->ncols = 2;
     s->name[0] = "s"; s->type[0] = CARQUET_PHYSICAL_BYTE_ARRAY; s->rep[0] = CARQUET_REPETITION_REQUIRED;
